@@ -123,8 +123,8 @@ pub fn c14(args: &Args, reg: &[TypeEntry], log: &mut Log) {
                 checks.insert("as=twin".into(), json!({"equal": ta == tb, "as": ta, "twin": tb}));
             }
         }
-        for role in ["variant-as", "variant-as-struct"] {
-            if let (Some(a), Some(b)) = (texts.get(role), texts.get("variant-twin")) {
+        for (role, twin) in [("variant-as", "variant-twin"), ("variant-as-struct", "variant-twin"), ("as-inline", "inline"), ("nv-as-inline", "nv-inline-twin")] {
+            if let (Some(a), Some(b)) = (texts.get(role), texts.get(twin)) {
                 let renamed = |v: &Value| -> Option<String> {
                     let t = v["decl"]["Ok"].as_str()?;
                     let d = parse::parse_decl(t).ok()?;
